@@ -223,11 +223,17 @@ func runC05(c *Ctx) {
 	}
 
 	// ---- M-steps / M-resumes / K: adversarial graphs under the option grid -------------------
+	corpus := adversarialCorpus()
 	n = c.N(1200, 50000)
-	for i := 0; i < n; i++ {
-		ec := genEngCase(r, true)
-		ec.MaxSteps = Pick(r, []int{-1, 0, 1, 2, 7, 100})
-		ec.MaxResumes = Pick(r, []int{0, 1, 2, 3, 500})
+	for i := 0; i < n+len(corpus); i++ {
+		var ec *engCase
+		if i < len(corpus) {
+			ec = corpus[i] // hand-built adversarial shapes run first
+		} else {
+			ec = genEngCase(r, true)
+			ec.MaxSteps = Pick(r, []int{-1, 0, 1, 2, 7, 100})
+			ec.MaxResumes = Pick(r, []int{0, 1, 2, 3, 500})
+		}
 		accepted := 0
 		ncall := 0
 		finished := c.withTimeout("M-terminates", ec.describe(), 30*time.Second, func() {
@@ -293,4 +299,80 @@ func runC05(c *Ctx) {
 		}
 	}
 	_ = json.Marshal
+}
+
+// hand-built adversarial shapes: waits spread over child runs that exit, flows whose first node enters the
+// next flow (chains, self-entering, A<->B), terminal loops
+func adversarialCorpus() []*engCase {
+	us := &uuidSeq{n: 900000}
+	mk := func(flows ...*genFlow) *genAssets { return &genAssets{Flows: flows, MissingUUID: us.next()} }
+	enter := func(f *genFlow, terminal bool) map[string]any {
+		return map[string]any{"uuid": us.next(), "type": "enter_flow", "flow": map[string]any{"uuid": f.UUID, "name": f.Name}, "terminal": terminal}
+	}
+	plain := func(dest int, actions ...map[string]any) *genNode {
+		return &genNode{UUID: us.next(), Actions: actions, Exits: []genExit{{UUID: us.next(), Dest: dest}}}
+	}
+	waitNode := func(dest int) *genNode {
+		e := genExit{UUID: us.next(), Dest: dest}
+		cu := us.next()
+		return &genNode{UUID: us.next(), Exits: []genExit{e}, HasWait: "m0", Router: map[string]any{"type": "switch", "wait": map[string]any{"type": "msg"},
+			"operand": "@input.text", "cases": []any{}, "default_category_uuid": cu, "categories": []map[string]any{{"uuid": cu, "name": "All", "exit_uuid": e.UUID}}}}
+	}
+	newFlow := func(name string) *genFlow { return &genFlow{UUID: us.next(), Name: name, Type: "messaging"} }
+	var out []*engCase
+	msgs := func(k int) []string {
+		var r []string
+		for i := 0; i < k; i++ {
+			r = append(r, "msg:red")
+		}
+		return r
+	}
+	// (1) parent loops entering a child that waits and completes
+	{
+		parent, child := newFlow("Parent"), newFlow("Child")
+		child.Nodes = []*genNode{waitNode(-1)}
+		parent.Nodes = []*genNode{plain(0, enter(child, false))}
+		for _, mr := range []int{2, 3, 5} {
+			out = append(out, &engCase{GA: mk(parent, child), MaxSteps: 100, MaxResumes: mr, Trigger: "manual", StartFlow: 0, Resumes: msgs(mr + 6), Seed: 11})
+		}
+	}
+	// (2) a chain of flows, each first node entering the next
+	{
+		var fl []*genFlow
+		for i := 0; i < 12; i++ {
+			fl = append(fl, newFlow(fmt.Sprintf("Chain %d", i)))
+		}
+		for i, f := range fl {
+			if i+1 < len(fl) {
+				f.Nodes = []*genNode{plain(-1, enter(fl[i+1], false))}
+			} else {
+				f.Nodes = []*genNode{plain(-1)}
+			}
+		}
+		for _, ms := range []int{1, 2, 3, 7} {
+			out = append(out, &engCase{GA: mk(fl...), MaxSteps: ms, MaxResumes: 500, Trigger: "manual", StartFlow: 0, Seed: 12})
+		}
+	}
+	// (3) a flow whose first node enters itself; (4) A <-> B; (5) terminal self-enter
+	for _, terminal := range []bool{false, true} {
+		self := newFlow("Self")
+		self.Nodes = []*genNode{plain(-1, enter(self, terminal))}
+		a, b := newFlow("A"), newFlow("B")
+		a.Nodes = []*genNode{plain(-1, enter(b, terminal))}
+		b.Nodes = []*genNode{plain(-1, enter(a, terminal))}
+		for _, ms := range []int{1, 2, 10} {
+			out = append(out, &engCase{GA: mk(self), MaxSteps: ms, MaxResumes: 500, Trigger: "manual", StartFlow: 0, Seed: 13})
+			out = append(out, &engCase{GA: mk(a, b), MaxSteps: ms, MaxResumes: 500, Trigger: "manual", StartFlow: 0, Seed: 14})
+		}
+	}
+	// (6) the step budget runs out exactly at a flow entry, after a wait
+	{
+		parent, child := newFlow("P"), newFlow("C")
+		child.Nodes = []*genNode{plain(1), plain(-1)}
+		parent.Nodes = []*genNode{waitNode(1), plain(2), plain(-1, enter(child, false))}
+		for _, ms := range []int{1, 2, 3, 4} {
+			out = append(out, &engCase{GA: mk(parent, child), MaxSteps: ms, MaxResumes: 500, Trigger: "manual", StartFlow: 0, Resumes: msgs(2), Seed: 15})
+		}
+	}
+	return out
 }
